@@ -4,6 +4,12 @@ C05 -- ListGrader gives the best consistent assignment and reports it per input 
 ENUM: arbitrary credit matrices are realised through the author-level TableGrader; every
 message names the (answer, input) pair that produced it, so the oracle can decode which
 answer each box was graded against.  Oracle = brute force over all n! assignments.
+
+Nested / heterogeneous configurations (subgrader lists, alternative lists combined with groupings, alternatives
+at the nested level, three levels of nesting, partial_credit=False at inner levels) are judged by the brute-force
+model in refs/c05_model.py, which enumerates every result the statement allows.  Real item graders (StringGrader,
+NumericalGrader, SingleListGrader) are covered differentially: entries must equal what an identically configured
+stand-alone grader returns for the pairs of a maximal assignment.
 """
 import itertools
 from ..core import Family, Result, viol, HarnessError
@@ -11,17 +17,25 @@ from ..fixtures import TableGrader
 from ..refs import c05_model as M
 
 from mitxgraders import ListGrader, SingleListGrader
-from mitxgraders.exceptions import ConfigError
 
 PROPERTY = 'C05'
 RULE = ('all n x n credit tables over small palettes, all n! input orders, all pairs of tables for two answer '
         'lists, all valid groupings; a case is non-trivial when not every assignment has the same total (so a '
-        'wrong assignment is visible) or, for ordered graders, when the table is not constant')
+        'wrong assignment is visible) or, for ordered graders, when the table is not constant; model-driven families: every '
+        'tuple of inputs over a small pool of atoms (or every arrangement of the atoms) for each configuration of a fixed '
+        'catalogue, non-trivial when some credit is at stake')
 EXPLANATION = ('states = distinct (configuration, credit table / input order) cases; transitions = calls of the real '
                'ListGrader; the brute-force assignment search is the oracle only')
 ASSUMPTIONS = ['TableGrader (mcv/fixtures.py) realises arbitrary credit matrices through the ItemGrader extension point',
                'which of several optimal assignments / tied answer lists is reported is not constrained',
-               'totals compared within 1e-9']
+               'totals compared within 1e-9',
+               'TagGrader (mcv/refs/c05_model.py) is a table-driven ItemGrader whose message names its tag, the matched expect '
+               'entry, the input and the siblings it received; refs/c05_model.py never calls ListGrader code',
+               'a nested ListGrader with partial_credit=False is zeroed before the outer assignment is chosen; the outer grader '
+               'is zeroed after the best answer list has been chosen (messages of zeroed entries are left open)',
+               'siblings (grader, input per box, in box order) are handed to the subgraders of an ORDERED grader only; an unordered '
+               'grader calls its subgrader without siblings (listgrader.py get_ordered_input_list / find_optimal_order)',
+               'differential families trust stand-alone StringGrader / NumericalGrader / SingleListGrader results (other properties)']
 
 EPS = 1e-9
 
@@ -221,7 +235,7 @@ class TablesTwoFree(Tables):
         return t
 
 
-CREDITS = (1, 0.5, 0.3, 0.7, 0.9, 0.2)
+CREDITS = (1, 0.5, 0.3, 0.7, 0.9, 0.2, 0.6, 0.4)      # one per box, up to 8 boxes
 
 
 class Orders(Family):
@@ -346,6 +360,10 @@ def surjections(length, maxgroups):
                 yield seq
 
 
+class Rejected(Exception):
+    """the library refused (or crashed on) a configuration the documentation allows"""
+
+
 class Groupings(Family):
     """(d) every valid grouping"""
     name = 'groupings'
@@ -400,24 +418,27 @@ class Groupings(Family):
         answers = []
         for m in members:
             answers.append(answers_atoms[m[0]] if len(m) == 1 else [answers_atoms[p] for p in m])
-        if outer_ordered == 'single':
-            g = ListGrader(answers=answers, subgraders=ListGrader(subgraders=leaf(), ordered=inner_ordered), ordered=True,
-                           grouping=list(grouping))
-        elif outer_ordered:
-            subs = [leaf() if len(m) == 1 else ListGrader(subgraders=leaf(), ordered=inner_ordered) for m in members]
-            g = ListGrader(answers=answers, subgraders=subs, ordered=True, grouping=list(grouping))
-        else:
-            g = ListGrader(answers=answers, subgraders=ListGrader(subgraders=leaf(), ordered=inner_ordered),
-                           ordered=False, grouping=list(grouping))
+        try:
+            if outer_ordered == 'single':
+                g = ListGrader(answers=answers, subgraders=ListGrader(subgraders=leaf(), ordered=inner_ordered), ordered=True,
+                               grouping=list(grouping))
+            elif outer_ordered:
+                subs = [leaf() if len(m) == 1 else ListGrader(subgraders=leaf(), ordered=inner_ordered) for m in members]
+                g = ListGrader(answers=answers, subgraders=subs, ordered=True, grouping=list(grouping))
+            else:
+                g = ListGrader(answers=answers, subgraders=ListGrader(subgraders=leaf(), ordered=inner_ordered),
+                               ordered=False, grouping=list(grouping))
+        except Exception as e:      # whatever the library raises for a documented-valid configuration is judged, not a harness error
+            raise Rejected(e)
         return g, members, answers_atoms, inputs_atoms, table
 
     def check(self, case):
         grouping, outer_ordered, inner_ordered, perm = [tuple(x) if isinstance(x, list) else x for x in case]
         try:
             g, members, A, I, table = self.build(grouping, outer_ordered, inner_ordered)
-        except Exception as e:
+        except Rejected as e:
             return Result('config-rejected', True, viol('grouping:valid-config-rejected',
-                                                        'grouping %r rejected: %r' % (grouping, e)))
+                                                        'grouping %r rejected: %r' % (grouping, e.args[0])))
         n = len(grouping)
         submitted = [I[p] for p in perm]          # box b holds input atom I[perm[b]]
         try:
@@ -691,7 +712,7 @@ class OrderedSubgraderList(ModelFamily):
 class GroupedAnswerLists(ModelFamily):
     name = 'grouped_answer_lists'
     rule = ('4 boxes in 2 groups (groupings 1122, 1212, 2211 [thorough also 1221]) x outer ordered {T,F} x inner ordered {T,F} x (outer, inner) '
-            'partial_credit in {(T,T),(F,T),(T,F)}, TWO alternative answer lists ([[A0,A1],[A2,A3]] and [[B0,B1],[B2,B3]], the '
+            'partial_credit in {(T,T),(F,T),(T,F)} [quick: 2211 only with (T,T)], TWO alternative answer lists ([[A0,A1],[A2,A3]] and [[B0,B1],[B2,B3]], the '
             'B answers fully matched by the reversed inputs and partly by the straight ones); every 4-tuple of inputs over '
             '(I0..I3, Z): the reported entries must be one of the results the exhaustive search over lists x group assignments '
             'x inner assignments allows (inner zeroing before the outer assignment, outer zeroing after the list is chosen)')
@@ -709,6 +730,8 @@ class GroupedAnswerLists(ModelFamily):
             for outer in (False, True):
                 for inner in (False, True):
                     for opc, ipc in ((True, True), (False, True), (True, False)):
+                        if tier == 'quick' and grouping == (2, 2, 1, 1) and not (opc and ipc):
+                            continue
                         spec = M.Lst(M.Lst(M.Leaf('T', table), inner, ipc), outer, opc, grouping)
                         cat.append(('grouping %r outer_ordered=%s inner_ordered=%s partial_credit outer=%s inner=%s'
                                     % (grouping, outer, inner, opc, ipc), spec, (la, lb), inputs))
@@ -721,7 +744,7 @@ class NestedVariants(ModelFamily):
             'TUPLE of alternative lists, outer/inner ordered {T,F}^2 x groupings 1122/1212; (b) an author SUBCLASS of ListGrader '
             'as nested grader; (c) unordered outer over an ordered inner grader with a list of two different subgraders; '
             '(d) ordered outer with subgraders [L, L] (ONE nested ListGrader object at two positions) for groups of 2 and 3 boxes (quick: the 5! arrangements of I0..I4, thorough: all 5^5 tuples); '
-            '(e) ordered outer with subgraders [item, list] for groupings 122/212/221 and two answer lists; (f) flat unordered grader with three alternative lists that SHARE answers; (g) unordered outer over 3 groups of 2 boxes, all 6! arrangements (thorough: also 4 groups of 2, pair-aligned arrangements and those with boxes 1 and 4 exchanged); verdict by exhaustive search')
+            '(e) ordered outer with subgraders [item, list] for groupings 122/212/221 and two answer lists; (f) flat unordered grader with three alternative lists that SHARE answers; (g) unordered outer over 3 groups of 2 boxes (112233, 123123; thorough also 331122), all 6! arrangements (thorough: also 4 groups of 2, pair-aligned arrangements and those with boxes 1 and 4 exchanged); verdict by exhaustive search')
 
     def catalog(self, tier):
         cat = []
@@ -781,13 +804,22 @@ class NestedVariants(ModelFamily):
         # (g) unordered outer over three (thorough: also four) groups of two boxes
         t6 = a_table(6)
         perms6 = [tuple('I%d' % q for q in perm) for perm in itertools.permutations(range(6))]
-        for grouping in ((1, 1, 2, 2, 3, 3), (1, 2, 3, 1, 2, 3), (3, 3, 1, 1, 2, 2)):
+        def three_groups(grouping):
             m = [[i for i in range(6) if grouping[i] == g] for g in (1, 2, 3)]
             for inner in (False, True):
                 spec = M.Lst(M.Lst(M.Leaf('T', t6), inner), False, True, grouping)
                 cat.append(('(g) unordered outer, 3 groups of 2, grouping %r inner_ordered=%s' % (grouping, inner), spec,
                             one(*[one(*[A(i) for i in grp]) for grp in m]), perms6))
+        three_groups((1, 1, 2, 2, 3, 3))
+        three_groups((1, 2, 3, 1, 2, 3))
+        # (f) flat unordered, alternative lists that share answers
+        for pc in (True, False):
+            spec = M.Lst(M.Leaf('T', t3), False, pc)
+            cat.append(('(f) flat unordered, lists (A0,A1,A2)/(A0,A1,B0)/(B2,A1,A0), partial_credit=%s' % pc, spec,
+                        ([A(0), A(1), A(2)], [A(0), A(1), B(0)], [B(2), A(1), A(0)]), in3))
+        # thorough-only configurations last, so that a configuration index means the same in both tiers
         if tier != 'quick':
+            three_groups((3, 3, 1, 1, 2, 2))
             t8 = a_table(8)
             al = list(aligned8())
             in8 = al + [x[:1] + x[4:5] + x[2:4] + x[1:2] + x[5:] for x in al]
@@ -797,11 +829,6 @@ class NestedVariants(ModelFamily):
                     spec = M.Lst(M.Lst(M.Leaf('T', t8), inner), False, True, grouping)
                     cat.append(('(g) unordered outer, 4 groups of 2, grouping %r inner_ordered=%s' % (grouping, inner), spec,
                                 one(*[one(*[A(i) for i in grp]) for grp in m]), in8))
-        # (f) flat unordered, alternative lists that share answers
-        for pc in (True, False):
-            spec = M.Lst(M.Leaf('T', t3), False, pc)
-            cat.append(('(f) flat unordered, lists (A0,A1,A2)/(A0,A1,B0)/(B2,A1,A0), partial_credit=%s' % pc, spec,
-                        ([A(0), A(1), A(2)], [A(0), A(1), B(0)], [B(2), A(1), A(0)]), in3))
         return cat
 
 
@@ -818,8 +845,8 @@ class ThreeLevels(ModelFamily):
     rule = ('ListGrader > ListGrader > ListGrader > item grader.  5 boxes: ordered outer [nested, item] for groupings 11112/21111/'
             '11211, the nested grader grouping its four boxes 1122 or 1212, middle/inner ordered {T,F}^2, ALL 5! arrangements of '
             'the inputs.  8 boxes: outer grouping 11112222 (thorough also 12121212 with middle 1221), middle grouping 1122, '
-            'outer/middle/inner ordered {T,F}^3; quick: the 384 pair-aligned arrangements and the same with boxes 1 and 4 '
-            'exchanged; thorough: ALL 8! arrangements for the block layout; verdict by exhaustive search over all three levels')
+            'outer/middle/inner ordered {T,F}^3; quick: the 384 pair-aligned arrangements and the 24 unflipped ones with boxes 1 '
+            'and 4 exchanged; thorough: ALL 8! arrangements for the block layout (aligned + exchanged for the other); verdict by exhaustive search over all three levels')
 
     def catalog(self, tier):
         cat = []
@@ -862,7 +889,9 @@ class ThreeLevels(ModelFamily):
                 for src, box in enumerate(order):
                     out[box] = 'I%d' % order[int(x[src][1:])]
                 return tuple(out)
-            if tier == 'quick' or li > 0:
+            if tier == 'quick':
+                inputs = [deal(x) for x in al + swapped[::16]]
+            elif li > 0:
                 inputs = [deal(x) for x in al + swapped]
             else:
                 inputs = [tuple('I%d' % p for p in perm) for perm in itertools.permutations(range(8))]
@@ -1156,7 +1185,8 @@ def families(tier):
         AnswerForms('answer_forms_3', 3, ('thorough',)),
         MixedRealSubgraders(),
         NumericalUnordered(),
-        ListsDiagonal('three_lists_2x2_diagonal', 2, (0, 0.3, 0.5, 1), ('quick', 'thorough')),
+        ListsDiagonal('three_lists_2x2_diagonal', 2, (0, 0.5, 1), ('quick',)),
+        ListsDiagonal('three_lists_2x2_diagonal_4', 2, (0, 0.3, 0.5, 1), ('thorough',)),
         ListsDiagonal('three_lists_3x3_diagonal', 3, (0, 0.5, 1), ('thorough',)),
         ListsDiagonal('two_lists_2x2_diagonal_fine', 2, (0, 0.1, 0.3, 1.0 / 3, 0.5, 0.504, 0.996, 1), ('quick', 'thorough'), nlists=2),
     ]
